@@ -344,6 +344,7 @@ func Vars(d gen.DataSpec, p *Probes) jet.VarMap {
 	vm.Set("gofn", func(s string, n int) string { return s })
 	vm.Set("strfn", func(x fmt.Stringer) string { return "stringer" })
 	vm.Set("nofn", func() string { return "nofn" })
+	vm.Set("nilfn", (func() string)(nil))
 	vm.Set("zstr", "")
 	vm.Set("zint", 0)
 	vm.Set("zst", struct{ A int }{})
